@@ -267,6 +267,29 @@ pub fn run<S: Space>(
     if let Some(c) = cap {
         b = b.timeout(c);
     }
+    // memory guard: the search frontier holds real states; when the resident set passes the limit
+    // the space stops producing successors (the run ends as "capped", never as a verdict)
+    let mem_stop = Arc::new(std::sync::atomic::AtomicBool::new(false));
+    let finished = Arc::new(std::sync::atomic::AtomicBool::new(false));
+    let watchdog = {
+        let (stats, mem_stop, finished) = (stats.clone(), mem_stop.clone(), finished.clone());
+        let limit_kb: u64 = std::env::var("VERIF_MAX_RSS_GB").ok().and_then(|v| v.parse::<u64>().ok()).unwrap_or(36) * 1024 * 1024;
+        std::thread::spawn(move || {
+            while !finished.load(Ordering::Relaxed) {
+                if let Ok(s) = std::fs::read_to_string("/proc/self/status") {
+                    if let Some(l) = s.lines().find(|l| l.starts_with("VmRSS:")) {
+                        let kb: u64 = l.split_whitespace().nth(1).and_then(|x| x.parse().ok()).unwrap_or(0);
+                        if kb > limit_kb {
+                            mem_stop.store(true, Ordering::Relaxed);
+                            stats.stop.store(true, Ordering::Relaxed);
+                            return;
+                        }
+                    }
+                }
+                std::thread::sleep(Duration::from_millis(500));
+            }
+        })
+    };
     let (unique, generated, depth, done) = match strategy {
         Strategy::Bfs => {
             let c = b.spawn_bfs().join();
@@ -277,8 +300,10 @@ pub fn run<S: Space>(
             (c.unique_state_count(), c.state_count(), c.max_depth(), c.is_done())
         }
     };
+    finished.store(true, Ordering::Relaxed);
+    let _ = watchdog.join();
     let violation = stats.violation.lock().unwrap().take();
-    let timed_out = violation.is_none() && (!done || cap.map(|c| t0.elapsed() >= c).unwrap_or(false));
+    let timed_out = violation.is_none() && (!done || mem_stop.load(Ordering::Relaxed) || cap.map(|c| t0.elapsed() >= c).unwrap_or(false));
     let r = RunResult {
         space: name,
         unique_states: unique as u64,
